@@ -341,6 +341,7 @@ def main():
             dis_spec.append((k, line, kind, 'a value or an error value (no crash, no hang)'))
         streams_ev[f'{name}/{build}'] = dict(cases=len(lines), distinct_nontrivial=len(nontrivial), disagreements=len(dis_model),
                                              spec_violations=len(dis_spec), unmodelled_skipped=skipped, crashes=len(crashes),
+                                             exhaustive=name.split(':')[0] in ('evaltable', 'parsekinds', 'scanfrag', 'envex'),
                                              distribution=dict(sorted(dist.items(), key=lambda kv: -kv[1])[:25]),
                                              wall_s=round(time.time() - ts, 1))
         if lines: samples.append(dict(stream=name, input=lines[min(len(lines) - 1, 7)][:400], impl=(exp[min(len(exp) - 1, 7)] if exp else '')[:200]))
@@ -428,6 +429,7 @@ def main():
             falsifier=dict(cases=falsifier_cases, violations=len(impl)),
             known_findings_hit=sorted(known_hit.keys()),
             exhaustive=False,
+            exhaustive_streams=sorted(k for k, v in streams_ev.items() if v.get('exhaustive')),
             explanation=cfg.get('explanation', ''),
         ),
         assumptions=cfg.get('assumptions', []),
